@@ -16,6 +16,9 @@ CLAIMED = {
  "C16": dict(tech="table agreement (model fields / translation keys / Colang guards / docs); abstract guard evaluation per category over the Colang CFG; complete path enumeration of the loop-free UserMessage flow against the documented decision table; producer/consumer marker protocol",
              text="Decides that each rail category's runner is guarded by its own option and no other (all abstract option combinations), the rails-only decision table of the UserMessage flow (complete, the flow is loop-free), the bot_message hand-over guard, and the marker protocol that makes `stop` land on exactly the open rail. Does not decide the concrete activated_rails list for a verdict combination.",
              ref="DESIGN.md C16"),
+ "C04": dict(tech="sibling cross-check of the dict/list/set branches of the matcher against the documented rule template; dispatch exhaustiveness; CFG dominance of identity tests over argument scoring; return-value shape",
+             text="Decides the shape of the recursive matcher that the documentation states per container kind (size guard, recursion order, no-partner=>0.0, single specificity factor, loop over the expected container), the dominance of the action/flow instance and name tests over argument scoring, and the comparison primitives. The matching relation over all values is not decided. Found and repaired F5.",
+             ref="DESIGN.md C04"),
 }
 NA = {
  "C18": "equality of string results over all chunkings of a stateful transducer; no structural necessary condition that is not a brittle proxy (DESIGN.md C18)",
